@@ -40,7 +40,7 @@ type profile struct {
 
 func defaultProfile() profile {
 	return profile{
-		encsMain: []string{"I32"}, encsSmall: []string{"String16", "VarEnc", "VarEncH", "VarEncH1", "Type", "TypeOff", "TypeID", "Bytes3", "LenBytes", "U64", "I8", "Int", "NilU32"},
+		encsMain: []string{"I32"}, encsSmall: []string{"String16", "VarEnc", "VarEncH", "VarEncH1", "Type", "TypeOff", "TypeID", "Bytes3", "LenBytes", "U64", "I8", "Int", "NilU32", "TypeF64"},
 		insts:  []string{h.InstFresh, h.InstUnm, h.InstProto, h.InstUnmUsed},
 		needQs: true, nilVals: true,
 		quickIDk: 4, quickScafK: 3, thoroughIDk: 6, thoroughScafK: 3, u85k: 3,
